@@ -34,7 +34,8 @@ def r1_mirror(ctx):
     f = ctx.facts.consts
     w, b = arr(f.get(ET + 'SQUARE_TO_WHITE_BONUS_INDEX')), arr(f.get(ET + 'SQUARE_TO_BLACK_BONUS_INDEX'))
     if w is None or b is None:
-        ctx.anchor_missing(rule, ET + 'SQUARE_TO_*_BONUS_INDEX')
+        # no index tables under these names (e.g. an index function instead): the mirrored look-up is decided by R2-summand-symmetry
+        ctx.ob(rule, ET + 'SQUARE_TO_*_BONUS_INDEX', 'index tables absent: mirrored look-up decided by evaluation of the summand (R2)', True, nontrivial=False)
         return None
     ctx.ob(rule, ET + 'SQUARE_TO_WHITE_BONUS_INDEX', 'permutation of 0..63', sorted(w) == list(range(64)), found=len(set(w)), expected=64)
     ctx.ob(rule, ET + 'SQUARE_TO_BLACK_BONUS_INDEX', 'permutation of 0..63', sorted(b) == list(range(64)), found=len(set(b)), expected=64)
@@ -114,6 +115,8 @@ def r2_colour_blind(ctx):
                 terms.extend(e[2])
             elif e[0] == 'assert':
                 terms.append(e[2])
+            elif e[0] == 'loop_head':
+                terms.extend(v_ for v_ in e[3].values() if isinstance(v_, tuple))
         for t in terms:
             if t is None:
                 continue
@@ -131,6 +134,9 @@ def r2_colour_blind(ctx):
     allowed = {'match colour', 'arg of ' + pieces_fn}
     ctx.ob(rule, name, 'colour parameter used only to pick the piece set and the index table', uses <= allowed and 'arg of ' + pieces_fn in uses,
            found=sorted(uses), expected=sorted(allowed), why='any other use of the colour makes the score colour dependent')
+    # the summand itself is decided by evaluation on its whole domain, whichever tables / functions / loop forms produce it
+    r2_summand_symmetry(ctx, name, colp, msrc)
+    return
     want = {'White': {'SQUARE_TO_WHITE_BONUS_INDEX'}, 'Black': {'SQUARE_TO_BLACK_BONUS_INDEX'}}
     for c in ('White', 'Black'):
         ctx.ob(rule, name, '%s uses %s' % (c, '/'.join(sorted(table_by_colour.get(c, {'<none>'})))), table_by_colour.get(c) == want[c],
@@ -176,6 +182,197 @@ def r2_colour_blind(ctx):
     ctx.ob(rule, name, 'per-piece summand identical for both colours up to the mirrored index table', same,
            found={k: sorted(v)[:2] for k, v in upd.items()}, expected='material += MATERIAL_VALUES[p] + BONUS_TABLES[p][eg][IDX[i]] for both colours',
            why='any colour-dependent term in the sum breaks score(mirror(p)) == -score(p)')
+
+
+def _tolist(v):
+    if isinstance(v, tuple) and v and v[0] in ('array', 'tuple'):
+        return [_tolist(x) for x in v[1]]
+    return v
+
+
+def evt(t, env, facts):
+    """evaluation of an extracted term over constant tables: named constants, array literals, indexing, integer arithmetic"""
+    from sa.evalterm import Unevaluable
+    if t in env:
+        return env[t]
+    k = t[0]
+    if k == 'c':
+        v = t[1]
+        if isinstance(v, bool):
+            return int(v)
+        if isinstance(v, int):
+            return v
+        raise Unevaluable(t)
+    if k == 'named':
+        v = facts.consts.get(t[1])
+        if v is None:
+            raise Unevaluable(t)
+        return _tolist(v)
+    if k == 'agg' and t[1] in ('array', 'tuple'):
+        return [evt(x, env, facts) for _, x in t[4]]
+    if k == 'agg' and t[1] == 'adt' and len(t[4]) == 1:
+        return evt(t[4][0][1], env, facts)
+    if k == 'idx':
+        b = evt(t[1], env, facts)
+        i = evt(t[2], env, facts)
+        if not isinstance(b, list) or not isinstance(i, int) or not 0 <= i < len(b):
+            raise Unevaluable(t)
+        return b[i]
+    if k in ('ref', 'K', 'der'):
+        if t[1][0] == 'L':
+            raise Unevaluable(t)
+        return evt(t[1], env, facts)
+    if k == 'cast':
+        return evt(t[1], env, facts)
+    if k == 'fld' and t[2] == '0':
+        v = evt(t[1], env, facts)
+        return v[0] if isinstance(v, list) else v
+    if k == 'bin':
+        op = t[1].replace('WithOverflow', '').replace('Unchecked', '')
+        a, b = evt(t[2], env, facts), evt(t[3], env, facts)
+        if isinstance(a, list) or isinstance(b, list):
+            raise Unevaluable(t)
+        f = {'Add': lambda: a + b, 'WAdd': lambda: a + b, 'Sub': lambda: a - b, 'Mul': lambda: a * b, 'BitXor': lambda: a ^ b, 'BitAnd': lambda: a & b,
+             'BitOr': lambda: a | b, 'Shl': lambda: (a << b) & ((1 << 64) - 1) if 0 <= b < 64 else 0, 'Shr': lambda: a >> b if 0 <= b < 64 else 0,
+             'Eq': lambda: int(a == b), 'Ne': lambda: int(a != b), 'Lt': lambda: int(a < b), 'Le': lambda: int(a <= b), 'Gt': lambda: int(a > b),
+             'Ge': lambda: int(a >= b)}.get(op)
+        if f is None:
+            raise Unevaluable(t)
+        return f()
+    if k == 'un' and t[1] == 'Not':
+        return int(not evt(t[2], env, facts))
+    raise Unevaluable(t)
+
+
+def _add_leaves(t):
+    if t[0] == 'bin' and t[1] in ('Add', 'WAdd', 'AddUnchecked', 'AddWithOverflow'):
+        return _add_leaves(t[2]) + _add_leaves(t[3])
+    if t[0] == 'fld' and t[2] == '0' and t[1][0] == 'agg' and t[1][1] == 'tuple':
+        return _add_leaves(t[1][4][0][1])
+    if t[0] == 'fld' and t[2] == '0' and t[1][0] == 'bin' and t[1][1].endswith('WithOverflow'):
+        return _add_leaves(('bin', 'Add', t[1][2], t[1][3])) if t[1][1].startswith('Add') else [t]
+    return [t]
+
+
+def _opaque_leaves(t, out):
+    """maximal sub-terms that are not arithmetic over constants: call results, loop / adapter elements, discriminants"""
+    k = t[0]
+    if k in ('c', 'named'):
+        return
+    if k in ('call', 'elem', 'lv', 'discr', 'hv', 'p', 'unk', 'pos'):
+        out.add(t)
+        return
+    if k == 'fld' and t[1][0] in ('call', 'elem', 'lv', 'hv', 'fld') and not (t[2] == '0' and t[1][0] == 'agg'):
+        # projection out of an opaque value (next(..).Some.0): opaque as a whole
+        r = t
+        while r[0] == 'fld':
+            r = r[1]
+        if r[0] in ('call', 'elem', 'lv', 'hv'):
+            out.add(t)
+            return
+    if k == 'agg':
+        for _, x in t[4]:
+            _opaque_leaves(x, out)
+        return
+    for x in t[1:]:
+        if isinstance(x, tuple) and x and isinstance(x[0], str):
+            _opaque_leaves(x, out)
+
+
+def r2_summand_symmetry(ctx, name, colp, msrc):
+    """The amount one piece adds to its side's score, as a function of (piece kind, square, endgame flag), read off the accumulation of the
+    per-colour material function - whatever way the iteration is written - and evaluated on its whole domain (6 x 64 x 2) for both colours:
+    White's value on square s must equal Black's on the square rotated by 180 degrees (63 - s); the piece is counted iff its bit is set."""
+    rule = 'C18.R2-summand-symmetry'
+    facts = ctx.facts
+    from sa.evalterm import Unevaluable
+    pieces_fn = BOARD + '::pieces'
+    tables = {}
+    detail = {}
+    for col in ('White', 'Black'):
+        args = [None] * (colp - 1) + [COLORS[col]]
+        eng = Engine(facts, readonly={pieces_fn, EV + 'is_endgame', 'chess::board::piece_set::PieceSet::locate'} | ({msrc[1]} if msrc[0] == 'fn' else set()), max_paths=20000)
+        outs = eng.run(name, args=args)
+        found = None
+        for o in outs:
+            if o.kind != 'backedge':
+                continue
+            cands = [v for v in (o.locals or {}).values() if isinstance(v, tuple)] + ([o.value] if isinstance(o.value, tuple) else [])
+            for t in cands:
+                leaves = _add_leaves(t)
+                accs = [x for x in leaves if x[0] == 'lv']
+                rest = [x for x in leaves if x[0] != 'lv']
+                if len(accs) != 1 or not rest or len(leaves) < 2:
+                    continue
+                if msrc[0] == 'fn':
+                    # material value through a function Piece -> i16 (tabulated by material_source): read it as a table indexed by the piece
+                    tab = ('agg', 'array', None, None, tuple((str(i_), C(v_)) for i_, v_ in enumerate(msrc[2])))
+
+                    def _mat(x):
+                        if not isinstance(x, tuple):
+                            return x
+                        if x and x[0] == 'call' and x[1] == msrc[1] and len(x[2]) == 1:
+                            return ('idx', tab, ('discr', x[2][0]))
+                        return tuple(_mat(y) for y in x)
+                    rest = [_mat(x) for x in rest]
+                op = set()
+                for x in rest:
+                    _opaque_leaves(x, op)
+                pc = [x for x in op if x[0] == 'discr']
+                others = [x for x in op if x not in pc]
+                # the square leaf is the one a path condition ties to the located bitboard; the remaining leaf is the game-phase flag
+                # (the result of is_endgame, or a bool handed in by the caller)
+                def tied(x):
+                    return [(a, v) for a, v in o.conds if any(s_ == x for s_ in subterms(a))
+                            and any(s_[0] == 'call' and s_[1].endswith('PieceSet::locate') for s_ in subterms(a))]
+                sq_ = [x for x in others if tied(x)]
+                eg = [x for x in others if x not in sq_]
+                if len(eg) == 1 and len(pc) == 1 and len(sq_) == 1:
+                    found = (rest, eg[0], pc[0], sq_[0], tied(sq_[0]))
+                    break
+            if found:
+                break
+        if not found:
+            ctx.ob(rule, name, '%s: per-piece summand recognised (accumulator + terms over piece, square, endgame flag)' % col, False,
+                   expected='material += f(piece, square, is_endgame) inside the iteration over the squares of each piece kind')
+            return
+        rest, E, P, S, guard = found
+        tbl = {}
+        try:
+            for p_ in range(6):
+                for e_ in (0, 1):
+                    for s_ in range(64):
+                        tbl[(p_, s_, e_)] = sum(evt(x, {E: e_, ('cast', E, 'usize'): e_, ('cast', ('cast', E, 'u8'), 'usize'): e_, P: p_, S: s_}, facts) for x in rest)
+        except (Unevaluable, TypeError, IndexError) as ex:
+            ctx.ob(rule, name, '%s: per-piece summand evaluable over the constant tables' % col, False, found=[show(x)[:200] for x in rest] + [repr(ex)[:100]],
+                   expected='MATERIAL_VALUES[piece] + BONUS_TABLES[piece][endgame][index(square)]')
+            return
+        tables[col] = tbl
+        detail[col] = [show(x)[:120] for x in rest]
+        # guard: counted iff bit `square` of the located bitboard is set (decided on all 64 x 64 (square, single-bit board) pairs)
+        okg = len(guard) >= 1
+        if okg:
+            a, v = guard[0]
+            loc = [s_ for s_ in subterms(a) if s_[0] == 'call' and s_[1].endswith('PieceSet::locate')][0]
+            try:
+                for s_ in range(64):
+                    for j in range(64):
+                        x = evt(a, {S: s_, loc: 1 << j, ('fld', loc, '0'): 1 << j}, facts)
+                        holds = (x not in v[1]) if isinstance(v, tuple) and v and v[0] == 'not' else x == (int(v) if isinstance(v, bool) else v)
+                        if holds != (s_ == j):
+                            okg = False
+            except (Unevaluable, TypeError):
+                okg = False
+            okg = okg and loc[2][1] == P[1] if False else okg
+        ctx.ob(rule, name, '%s: a piece is counted iff the bit of its square is set in pieces(%s).locate(piece)' % (col, col), okg,
+               found=[show_cond(c)[:160] for c in guard][:2], expected='(1 << square) & locate(piece) != 0')
+    w, b = tables['White'], tables['Black']
+    bad = [(p_, sq_name(1 << s_), e_, w[(p_, s_, e_)], b[(p_, 63 - s_, e_)]) for (p_, s_, e_) in sorted(w) if w[(p_, s_, e_)] != b[(p_, 63 - s_, e_)]]
+    ctx.ob(rule, name, 'value of a White piece on s = value of a Black piece on the rotated square 63 - s (6 kinds x 64 squares x 2 phases)', not bad,
+           found={'mismatches (piece, square, endgame, white, black)': bad[:4], 'summand': detail}, expected='equal for all 768 cases',
+           why='the score of the colour-swapped, 180-degree rotated position must be exactly the negative: every piece must be worth to Black on the '
+               'rotated square what it is worth to White')
+    ctx.evaluations_note = len(w) * 2
 
 
 def swap_colours(t):
